@@ -534,6 +534,12 @@ func (r *runner) execOp(t *rt.Task, op *Op) *OpResult {
 		time.Sleep(time.Duration(op.SleepNs))
 		res.EndNs, res.Done = rt.Now(), true
 		return res
+	case "ctrset":
+		// the CHF has been running for a long time: its record counter is at this value
+		res.StartNs = rt.Now()
+		chf_context.GetSelf().LocalRecordSequenceNumber = uint64(op.TopUp)
+		res.EndNs, res.Done = rt.Now(), true
+		return res
 	case "dbcost":
 		// the operator changes the tariff of (subscriber, rating group) in the database
 		res.StartNs = rt.Now()
